@@ -127,13 +127,26 @@ def is_blank(v) -> bool:
 # ---------------------------------------------------------------------------------------------
 # workbooks
 
+CHART_SHEET = '$chart-sheet'      # in place of the cells of a sheet spec: a chart sheet
+
+
 def build_xlsx(sheets) -> io.BytesIO:
     wb = Workbook()
     wb.remove(wb.active)
+    charts = []
     for title, cells in sheets:
+        if cells == CHART_SHEET:
+            charts.append(wb.create_chartsheet(title))     # a tab that holds one chart and no cells
+            continue
         ws = wb.create_sheet(title=title)
         for addr, value in cells.items():
             ws[addr] = value
+    if charts:
+        from openpyxl.chart import BarChart, Reference
+        for cs in charts:
+            chart = BarChart()
+            chart.add_data(Reference(wb.worksheets[0], min_col=1, min_row=1, max_row=2))
+            cs.add_chart(chart)
     bio = io.BytesIO()
     wb.save(bio)
     bio.seek(0)
